@@ -87,6 +87,18 @@ func c10ClientEncoding(run *ev.Run) {
 		t1   time.Time
 		seen bool
 	}
+	// Every other case goes through a client shared by all cases of its protocol
+	// (one long-lived client serving calls with deadlines of every magnitude, in
+	// whatever order the 16 workers get to them); the others use a fresh client.
+	var sharedGot sync.Map // call id -> rec
+	shared := map[string]*svc.ClientSet{}
+	for _, p := range svc.Protocols {
+		cn := &wire.Canned{Background: true, Respond: func(req *http.Request, _ []byte) (*http.Response, error) {
+			sharedGot.Store(req.Header.Get(wire.CallHeader), rec{hdr: req.Header.Clone(), t1: time.Now(), seen: true})
+			return nil, fmt.Errorf("verif: stop here")
+		}}
+		shared[p] = svc.NewClientSet(cn, "http://verif.local", svc.ProtoOpts(p, "proto")...)
+	}
 	parallel(16, len(durs), func(i int) {
 		d := durs[i]
 		protocol := svc.Protocols[i%3]
@@ -97,6 +109,7 @@ func c10ClientEncoding(run *ev.Run) {
 		}
 		var mu sync.Mutex
 		var got rec
+		useShared := i%2 == 0 && !run.Replaying()
 		cn := &wire.Canned{Background: true, Respond: func(req *http.Request, _ []byte) (*http.Response, error) {
 			mu.Lock()
 			got = rec{hdr: req.Header.Clone(), t1: time.Now(), seen: true}
@@ -104,13 +117,24 @@ func c10ClientEncoding(run *ev.Run) {
 			return nil, fmt.Errorf("verif: stop here")
 		}}
 		cs := svc.NewClientSet(cn, "http://verif.local", svc.ProtoOpts(protocol, "proto")...)
+		callID := "x"
+		if useShared {
+			cs = shared[protocol]
+			callID = fmt.Sprintf("shared-%d", i)
+		}
 		t0 := time.Now()
 		ctx, cancel := context.WithDeadline(context.Background(), t0.Add(d))
-		_ = cs.Do(ctx, kind, "x", nil, []*gen.Msg{{Id: 1}})
+		_ = cs.Do(ctx, kind, callID, nil, []*gen.Msg{{Id: 1}})
 		cancel()
 		mu.Lock()
 		g := got
 		mu.Unlock()
+		if useShared {
+			if v, ok := sharedGot.LoadAndDelete(callID); ok {
+				g = v.(rec)
+			}
+			run.Count("client.headers.shared_client", 1)
+		}
 		if !g.seen {
 			run.Inconclusive("client request never reached the transport")
 			return
@@ -121,7 +145,7 @@ func c10ClientEncoding(run *ev.Run) {
 		run.Count("client.headers.checked", 1)
 		D := big.NewInt(int64(d))
 		lower := new(big.Int).Sub(D, big.NewInt(int64(elapsed))) // remaining time at encoding was >= this
-		detail := map[string]any{"protocol": protocol, "kind": kind.String(), "deadline_in_ns": int64(d), "header": vals, "elapsed_until_transport_ns": int64(elapsed)}
+		detail := map[string]any{"protocol": protocol, "kind": kind.String(), "deadline_in_ns": int64(d), "header": vals, "elapsed_until_transport_ns": int64(elapsed), "client_shared_with_other_cases": useShared}
 		digits := len(fmt.Sprint(int64(d) / 1e6))
 		run.Eval(fmt.Sprintf("client|%s|%s|ms-digits=%d", protocol, kind, digits))
 		if len(vals) > 1 {
